@@ -284,6 +284,7 @@ fn run_node(rep: &mut Report, tier: Tier, stakes: &[u32], node: usize, max_round
     sc.with_votes = with_aggr;
     sc.with_timeouts = with_aggr;
     sc.stale_variants = false;
+    sc.with_invalid = false;
     let mut u = Uni2 { blocks: BTreeMap::new() };
     solo::craft_children(&s, &sc, &mut u);
     let evs = solo::menu(&s, &sc, &u, &[]);
